@@ -352,6 +352,7 @@ def library_outputs_rule(chk):
         "gates+assign": ("module m (a, b, o, p);\n  input a, b;\n  output o, p;\n  wire w;\n  and g0 (w, a, b);\n  assign o = w;\n  assign p = 1'b1;\nendmodule\n", []),
         "blackbox": ("module s (ck, a, y);\n  input ck, a;\n  output y;\n  wire d0, q0;\n  xor x0 (d0, a, q0);\n  dff r0 (.clk(ck), .d(d0), .q(q0), .qn());\n  buf b0 (y, q0);\nendmodule\n", [ff]),
         "constant-only-in-assign": ("module k (a, y, z);\n  input a;\n  output y, z;\n  assign y = 1'b0;\n  buf b0 (z, a);\nendmodule\n", []),
+        "constants-of-other-bases-in-ports-and-pins": ("module k (ck, a, y, z);\n  input ck, a;\n  output y, z;\n  wire q0;\n  and a0 (z, a, 1'h1);\n  dff r0 (.clk(ck), .d(1'd0), .q(q0), .qn());\n  or o0 (y, q0, 1'h0);\nendmodule\n", [ff]),
         "constants-in-ports-and-assign": ("module k (a, y, z);\n  input a;\n  output y, z;\n  assign y = 1'b1;\n  and a0 (z, a, 1'b1);\nendmodule\n", []),
     }
     for name, (text, bbs) in texts.items():
